@@ -7,6 +7,10 @@ LEVEL = "model_checking"
 def run(ck):
     r = ck.tlc("wire", "WriteLock", "Lock.cfg", workers=2, label="two writers with the write lock: wire always well formed")
     ck.model(r)
+    ck.model(ck.tlc("wire", "BufferedWrite", "Buffered.cfg", label="shared write buffer: response write + flush under the lock, every interleaving with two frames"))
+    nb = ck.tlc("wire", "BufferedWrite", "BufferedNegFlush.cfg", must_pass=False, label="negative control: flush outside the lock (seeded change C13-3)")
+    if "WireOK" not in nb.violated and "Complete" not in nb.violated:
+        raise Infra("negative control failed: flushing outside the lock does not tear the wire in BufferedWrite.tla")
     for cfg, what in (("NoFrameLock.cfg", "media writer without the lock"), ("NoRespLock.cfg", "response writer without the lock")):
         n = ck.tlc("wire", "WriteLock", cfg, workers=1, must_pass=False, label="negative control: " + what)
         if "WireOK" not in n.violated:
@@ -47,7 +51,7 @@ def run(ck):
 
 
 META = {
-    "text": "WriteLock.tla models the two writers of a playing connection step by step (lock, prefix, payload, unlock / lock, response, unlock); TLC shows every interleaving keeps the wire well formed with the lock and finds a torn wire without it (negative controls). On the real server the media writer is parked by the hook frame.prefix exactly between the interleaved prefix and the payload while OPTIONS / repeated PLAY requests are sent (TCP and RTSP-over-WebSocket); a strict independent parser turns everything the client reads into a trace that TLC validates (every item a complete response or frame, every request answered once).",
+    "text": "BufferedWrite.tla models the shared bufio.Writer at the grain of its copy / advance and emit / reset steps (the flush of a response must happen under the lock: negative control). WriteLock.tla models the two writers of a playing connection step by step (lock, prefix, payload, unlock / lock, response, unlock); TLC shows every interleaving keeps the wire well formed with the lock and finds a torn wire without it (negative controls). On the real server the media writer is parked by the hook frame.prefix exactly between the interleaved prefix and the payload while OPTIONS / repeated PLAY requests are sent (TCP and RTSP-over-WebSocket); a strict independent parser turns everything the client reads into a trace that TLC validates (every item a complete response or frame, every request answered once).",
     "note": "Trusted: TLC, WriteLock.tla / WireTrace.tla, the strict parser in harness/vclient (media payloads deliberately contain 'RTSP/1.0 200 OK' and '$' bytes), the hook frame.prefix.",
     "technique": "TLA+ model of the lock discipline checked by TLC (with negative controls); hook-gated overlap of the two writers on the real server; TLC trace validation of the wire",
     "specs": ["wire"],
